@@ -54,9 +54,16 @@ pub fn install_panic_hook() {
         default(info);
     }));
 }
-/// the known defect of the pool (C11 findings F9 / F3 / F10) a service panic of this history belongs to
+/// set once the current history has put the pool into one of the situations C11's recorded defects start from
+/// (a re-added transaction with a child handed to the pool; an expired inner node; aggregates seen stale)
+pub static C11_SITUATION: std::sync::atomic::AtomicBool = std::sync::atomic::AtomicBool::new(false);
+pub fn note_c11_situation() { C11_SITUATION.store(true, std::sync::atomic::Ordering::SeqCst); }
+pub fn c11_situation() -> bool { C11_SITUATION.load(std::sync::atomic::Ordering::SeqCst) }
+/// the known defect of the pool (C11 findings F9 / F3 / F10) a service panic of this history belongs to: only in a
+/// history that went through one of the situations those defects start from
 pub fn service_panic_signature() -> Option<(&'static str, String)> {
     let v = SERVICE_PANICS.lock().ok()?;
+    if !c11_situation() { return None; }
     for m in v.iter() {
         if m.contains("inconsistent pool") { return Some(("pool-service-panicked-inconsistent-pool", m.clone())); }
         if m.contains("invalid key") { return Some(("pool-service-panicked-invalid-key", m.clone())); }
@@ -91,6 +98,9 @@ pub struct World {
     /// id of the transaction whose two-step submission (pre_check / submit_entry) straddled the change of
     /// the tip that is being evaluated (it was not pooled when the pool processed that change)
     pub straddle_tx: Option<ProposalShortId>,
+    /// transactions of blocks this node detached and did not re-attach in the same change: the pool
+    /// re-adds them (readd_detached_tx), which is where C11's finding F3 starts
+    pub readded: HashSet<Byte32>,
 }
 
 /// what changed on the node's main chain by one delivered block
@@ -172,6 +182,7 @@ impl World {
             orphan_cause: HashMap::new(),
             lost_detached: HashSet::new(),
             straddle_tx: None,
+            readded: HashSet::new(),
         };
         let genesis = w.consensus.genesis_block().clone();
         w.block_id.insert(genesis.hash(), 0);
@@ -476,6 +487,20 @@ impl World {
         let ch = change_between(&before, &after);
         for d in &ch.detached {
             self.stash.push(d.clone());
+        }
+        {
+            let attached: HashSet<Byte32> = ch.attached.iter().flat_map(|x| x.transactions().into_iter().skip(1).map(|t| t.hash())).collect();
+            for d in &ch.detached {
+                for tx in d.transactions().iter().skip(1) {
+                    if !attached.contains(&tx.hash()) {
+                        self.readded.insert(tx.hash());
+                        let h = tx.hash();
+                        if self.txs.iter().any(|t| !t.secret && t.tx.input_pts_iter().chain(t.tx.cell_deps_iter().map(|d| d.out_point())).any(|op| op.tx_hash() == h)) {
+                            note_c11_situation();
+                        }
+                    }
+                }
+            }
         }
         Ok(Some(ch))
     }
